@@ -369,7 +369,7 @@ def monitor4(ctx, hooks, seed, nthreads, nops, rounds):
                         r_ops[k][1]()
                     except Exception:
                         pass
-                first = [k for k, op in enumerate(r_ops) if ("stripped:" + op[2]) in {o[2] for o in r_ops}]
+                first = [k for k, op in enumerate(r_ops) if op[2].startswith("hermitian-lazy")] + [k for k, op in enumerate(r_ops) if ("stripped:" + op[2]) in {o[2] for o in r_ops}]
                 inj.pause = False
                 ctx.count("m4", "fresh-object-rounds")
                 ctx.count("m4", "fresh-round-first-ops-on-fused-legs", len(first))
